@@ -297,6 +297,55 @@ Additions for data.py (Plate.merge and the one-line helpers of ScreenBase / Plat
                       e.g. an id array that must not hold a NaN) and is bound with `dor`.  Aliasing is not modelled, as for
                       cfg["fields"]: a second reference to an object along the chain goes stale (Plate.merge's `other.screen`).
                       Without the key all these targets are refused as before.
+Additions for fast_mvn.py / the constructor and wrappers of the sparse-combo model (C08 links, second part):
+  `a if c else b`     (only with cfg["ifexp"] = True) a conditional expression: the test is evaluated first (its hoisted calls are
+                      bound before, unconditionally, as Python evaluates them), then exactly one arm.  Both arms must have the same
+                      type (refused otherwise).  When neither arm hoists anything it is `(if c then a else b)`; when an arm contains
+                      a call that may raise or draw (`np.linalg.cholesky(Q).T if not chol_factor else Q.T`) that call is bound INSIDE
+                      its arm: `bind r <- (if c then (bind ..; ok a) else (bind ..; ok b));`.  Stateful expression calls inside
+                      stay refused (cfg["expr_state_calls"]).  Without the key a conditional expression is refused as before.
+Additions for the parameter dicts of the posterior samples (core.Theta, models/sparse_combo*.py; C10 links):
+  cfg["strings"]      True: a str constant is the list of its code points, a term of type `pystr` (PyRt; the text is kept as a
+                      comment), and the following string-keyed forms are accepted (all refused without the key):
+    `strdict T`         a dict with STRING keys and values of type T (insertion-ordered `list (pystr * T)`):
+                        `{k1: v1, ..., kn: vn}`   the entries inserted from the left (PyRt.sdict_set: a repeated key keeps its first
+                                                  place and gets the last value), keys and values evaluated in source order; every
+                                                  value is coerced to cfg["strdict_elem"] when that is declared (else to the type of
+                                                  the first value); `**` inside the display is refused
+                        `d[k]` (read)             PyRt.sdict_read, KeyError = Err cfg["key_error"] (refused without that tag)
+                        `k in d` / `k not in d`   d a bound VARIABLE of that type: PyRt.sdict_mem
+                        `for k, v in d.items()`   the entries in insertion order
+                        `{}`                      the empty dict where a `strdict T` is needed
+    `t[i]`              t of a tuple type, i a constant index within it: the projection (fst / snd chain)
+  cfg["type_error"]   tag: `F(k1=e1, ..., **d)` in a cfg["kwcalls"] call, d : strdict T the LAST argument: PyRt.sdict_only - every
+                      key of d must be a declared parameter that the call does not pass itself, else TypeError (Err tag: unexpected
+                      keyword / multiple values) -, then every parameter not passed is read from d (PyRt.sdict_read, a missing
+                      one is the same TypeError) and coerced to its declared type.  A parameter with a default value that the call
+                      does not pass is refused under `**`.  Without the key `**` stays refused.
+  cfg["checked_coerce"]  [(from type, to type, template over {x} denoting a `result to`)]: a downcast that may raise, applied (and
+                      bound where Python evaluates the use) where cfg["coerce"] has no total coercion - a dict value used as an array
+  cfg["dataclass"]    {"owner": type, "bases": [names], "fields": [names in order]}: CHECKED against the class cfg["cls"], not
+                      translated - decorated with exactly `@dataclass`, exactly these bases, its annotated class-level names are
+                      exactly these fields in this order and none has a default, no other class-level statement than methods and
+                      the docstring, none of __init__ / __post_init__ / __new__ / __setattr__ / __getattr__ / __getattribute__; a
+                      cfg["kwcalls"] entry `cls` must take exactly the fields as parameters and is accepted only in a plain
+                      @classmethod whose first parameter is `cls`.  Then `x.__dict__` (x of the owner type) is the dict display
+                      {field: x.field} over the fields in declaration order (getters of cfg["fields"]).  TRUSTED: the bases
+                      contribute no fields, no attribute is added to / deleted from an instance after construction, and the
+                      returned dict is used as a value (it is the live instance dict in Python).
+  cfg["loop_return"]  True (default monad, no return_state / implicit_return): `return e` inside a `for` loop - the loop's state
+                      gains an optional return value (None to start with), `return e` answers (false, .., Some e) through
+                      PyRt.res_fold_brk like a `break`, and after the loop `match ret with Some v => return v | None => <rest> end`,
+                      where `return v` is the enclosing loop's own return when the loops are nested.  Combine with cfg["tail_dup"]
+                      for an `if` that may, but need not, return.  Without the key a return inside a loop is refused as before.
+Additions for data.py Screen.single_treatment_effects / scoring/size.py SizeScorer.score (C14 / C06 leftovers):
+  cfg["except_tags"]  {exception class name: tag (a Gallina term of type Z, e.g. a parameter)}: a FINAL statement
+                          try: B   except E: H      (one handler naming one declared class; no `as`, else, finally)
+                      where B and H both always end in a return / raise and B assigns no variable, is PyRt.res_catch tag B H: an
+                      exception of B that carries E's tag is replaced by H's outcome, any other passes.  The configuration TRUSTS
+                      that the primitives of B use exactly this tag for exactly the exceptions of class E.  Default monad only.
+  {k: v for a, b in d.items()}   d a bound variable of type `dict T`, no condition: the left fold of dict_set over d's entries
+                      in insertion order, a : Z, b : T in scope for k and v (neither may raise)
 Additions for cli/argument_parsing.py, introspection.py and the get_args() of the wrappers (the argument-handling glue; C18 / C06 / C04 / C03):
   cfg["str_consts"]   type name: a string constant in expression position is the list of its code points at that type
                       (`"true"` -> `([116; 114; 117; 101] : str)`).  Without the key a string constant is refused as before (docstrings
@@ -321,19 +370,22 @@ Additions for cli/argument_parsing.py, introspection.py and the get_args() of th
                                                  (PyRt.opt_or_empty; aliasing with the old object is not modelled)
   cfg["unpack_error"] tag: `(a, b, ..) = e` with e a LIST of the names' declared type: `match e with [a; b; ..] => rest | _ => Err tag end`
                       (ValueError: not enough / too many values to unpack).  Default monad only.
-  cfg["except_tags"]  {exception class name: [error tags]}: `try: B except E [as n]: H` with E a declared class name and H ENDING IN A RAISE:
-                          dor (vs) <- res_catch [tags] (B; Ok (vs)) (H); rest
-                      PyRt.res_catch runs H exactly when B ends in an Err whose tag is listed for E (any other Err passes through); vs = the
+  cfg["except_tag_lists"]  {exception class name: [error tags]}: `try: B except E [as n]: H` with E a declared class name and H ENDING IN A
+                      RAISE, followed by further statements (the other shape than cfg["except_tags"], whose parts both end the function):
+                          dor (vs) <- res_catch_tags [tags] (B; Ok (vs)) (H); rest
+                      PyRt.res_catch_tags runs H exactly when B ends in an Err whose tag is listed for E (any other Err passes through); vs = the
                       variables B assigns that are bound before the try or assigned by a plain / tuple assignment at its top level.  The
                       configuration TRUSTS the tag lists (which primitives' errors are instances of E).  The name n is not bound (a read is
                       refused); continue / break / return anywhere, raise / try inside B, else / finally, several handlers are refused.
-                      Takes precedence over cfg["try_prims"].
-  cfg["if_expr"]      True: `a if c else b`: the test first, then `if c then a else b`; neither branch may raise (a hoisted call would be
+                      Takes precedence over cfg["try_prims"] and cfg["except_tags"].
+  cfg["if_expr"]      (cfg["ifexp"] wants arms of ONE type and lets them raise; this form coerces one arm and refuses raising arms)
+                      True: `a if c else b`: the test first, then `if c then a else b`; neither branch may raise (a hoisted call would be
                       evaluated unconditionally); the branches must have one type, possibly after a declared coercion (cfg["coerce"], e.g. of
                       the literal None: `("none", T, term)`).
   cfg["truthy"]       {type name: Gallina predicate}: the truth value of an `opt T` value, T a declared opaque type, is false for None and the
                       predicate (bool(o)) otherwise - instead of the default "an opaque object is true".
-  cfg["loop_return"]  True: a `return e` inside a `for` loop that is a TOP-LEVEL statement of the function is rewritten before translation
+  cfg["loop_return_rewrite"]  True (for functions that cfg["loop_return"] refuses: an implicit return after the loop, cfg["implicit_return"]):
+                      a `return e` inside a `for` loop that is a TOP-LEVEL statement of the function is rewritten before translation
                       (class LoopReturn) into `loop_ret = None; for ..: .. loop_ret = e; break ..; if loop_ret is not None: return loop_ret`
                       with loop_ret a fresh variable of type `opt T`, T the return type (a returned None is `Some None`).  At most one such
                       loop; refused when the loop has a `break` of its own, an else clause, or the return sits in a nested loop / with / try.
@@ -364,6 +416,8 @@ def parse_type(s):
         return ("set",)
     if s.startswith("pairdict "):
         return ("pairdict", parse_type(s[9:]))
+    if s.startswith("strdict "):
+        return ("strdict", parse_type(s[8:]))
     if s.startswith("kdict ") and len(s[6:].strip().split(" ", 1)) == 2:      # `kdict K V`: K a type NAME (one word)
         kk, vv = s[6:].strip().split(" ", 1)
         return ("kdict", parse_type(kk), parse_type(vv))
@@ -401,6 +455,8 @@ def coq_type(t):
         return "(list Z)"
     if t[0] == "pairdict":
         return "(list ((Z * Z) * %s))" % coq_type(t[1])
+    if t[0] == "strdict":
+        return "(list (pystr * %s))" % coq_type(t[1])
     if t[0] == "kdict":
         return "(list (%s * %s))" % (coq_type(t[1]), coq_type(t[2]))
     return t[0]
@@ -408,6 +464,12 @@ def coq_type(t):
 
 NONE_T = ("none",)       # type of the literal None before it meets an option type
 EMPTY_T = ("emptylist",)  # type of the literal [] before it meets a list type
+
+
+def str_literal(s):
+    """a Python str constant: the list of its code points, as a term of type PyRt.pystr (with the text as a comment)"""
+    note = " (* %s *)" % s if s and all(c.isalnum() or c in "_-. " for c in s) and s.isascii() else ""
+    return "([%s] : pystr)%s" % ("; ".join(str(ord(c)) for c in s), note)
 
 
 def tuple_term(names):
@@ -622,6 +684,8 @@ class Tr:
                 fr = Fraction(repr(e.value))      # the decimal value of the literal's shortest repr
                 tmpl, ty = self.cfg["float_literals"]
                 return "(" + tmpl.format(n=fr.numerator, d=fr.denominator) + ")", parse_type(ty)
+            if isinstance(e.value, str) and self.cfg.get("strings"):      # cfg["strings"]: a str constant is the list of its code points
+                return str_literal(e.value), ("pystr",)
             if isinstance(e.value, str) and self.cfg.get("str_consts") is not None:
                 # cfg["str_consts"]: a string constant is the list of its code points, at the declared type name
                 ty = parse_type(self.cfg["str_consts"])
@@ -642,6 +706,10 @@ class Tr:
             return "[" + "; ".join(p[0] for p in parts) + "]", ("list", parts[0][1])
         if isinstance(e, ast.Dict) and not e.keys:
             return "[]", EMPTY_T
+        if isinstance(e, ast.Dict) and self.cfg.get("strings"):
+            return self.strdict_literal(e, env, hoist)
+        if isinstance(e, ast.Attribute) and e.attr == "__dict__" and self.cfg.get("dataclass"):
+            return self.dataclass_dict(e, env, hoist)
         if isinstance(e, ast.Dict) and self.cfg.get("dict_literal_type") is not None:
             return self.kdict_literal(e, env, hoist)
         if isinstance(e, ast.DictComp) and self.kdict_items_source(e, env) is not None:
@@ -666,6 +734,8 @@ class Tr:
             raise Unsupported("`x or {}` on a %s" % (at,))
         if isinstance(e, ast.DictComp):
             # {k(x): v(x) for x in L}  ->  fold_left (fun d x => dict_set d k v) L []; neither k nor v may raise
+            if len(e.generators) == 1 and self.items_comp(e.generators[0], env) is not None:
+                return self.dictcomp_over_items(e, env, hoist)
             if len(e.generators) != 1 or e.generators[0].is_async or e.generators[0].ifs \
                     or not isinstance(e.generators[0].target, ast.Name):
                 raise Unsupported("dict comprehension other than {k(x): v(x) for x in L}: " + ast.unparse(e))
@@ -777,6 +847,10 @@ class Tr:
             if len(e.ops) != 1:
                 raise Unsupported("chained comparison: " + ast.unparse(e))
             return self.compare(e.left, e.ops[0], e.comparators[0], env, hoist), ("bool",)
+        if isinstance(e, ast.Subscript) and not isinstance(e.slice, (ast.Slice, ast.Tuple)) and self.cfg.get("strings"):
+            r = self.strdict_or_tuple_subscript(e, env, hoist)      # d[k] on a `strdict T`, t[i] on a tuple (cfg["strings"])
+            if r is not None:
+                return r
         if isinstance(e, ast.Subscript) and not isinstance(e.slice, (ast.Slice, ast.Tuple)) and self.M["type"] == "result":
             # d[k] read on a `dict T`: checked lookup (PyRt.dict_get, KeyError = Err 96); any other subscript is refused
             mark = len(hoist)
@@ -795,8 +869,122 @@ class Tr:
             n = self.new("r")
             hoist.append((n, "dict_get %s %s" % (d, self.need(kk, kt, ("Z",), hoist))))
             return n, dt[1]
+        if isinstance(e, ast.IfExp) and self.cfg.get("ifexp"):
+            # cfg["ifexp"]: `a if c else b` - the test first, then one arm; an arm's raising / drawing calls are bound inside it
+            c = self.cond(e.test, env, hoist)
+            ha, hb = [], []
+            a, at = self.expr(e.body, env, ha)
+            b, bt = self.expr(e.orelse, env, hb)
+            if at != bt or at in (NONE_T, EMPTY_T):
+                raise Unsupported("conditional expression whose arms have the types %s and %s: %s" % (at, bt, ast.unparse(e)))
+            if not ha and not hb:
+                return "(if %s then %s else %s)" % (c, a, b), at
+            arm = lambda h, v: "".join("%s %s <- %s; " % (self.M["bind"], x, t) for x, t in h) + "%s %s" % (self.M["ok"], v)
+            n = self.new("r")
+            hoist.append((n, "(if %s then (%s) else (%s))" % (c, arm(ha, a), arm(hb, b))))
+            return n, at
         raise Unsupported("expression: " + ast.unparse(e))
 
+    # ---- cfg["strings"]: str constants, dicts with string keys, constant tuple indices; cfg["dataclass"]
+    def strdict_elem(self, vt):
+        """the value type of a dict display: cfg["strdict_elem"] when declared (every value is coerced to it), else [vt]"""
+        return parse_type(self.cfg["strdict_elem"]) if self.cfg.get("strdict_elem") else vt
+
+    def strdict_literal(self, e, env, hoist):
+        """{k1: v1, ..., kn: vn} with keys of type str: the entries are inserted from the left (PyRt.sdict_set: a repeated key
+        keeps its first place and gets the last value); keys and values are evaluated in source order"""
+        if any(k is None for k in e.keys):
+            raise Unsupported("dict display with ** unpacking: " + ast.unparse(e)[:80])
+        term, et = "[]", None
+        for kn, vn in zip(e.keys, e.values):
+            kk, kt = self.expr(kn, env, hoist)
+            kk = self.need(kk, kt, ("pystr",), hoist)
+            vv, vt = self.expr(vn, env, hoist)
+            if et is None:
+                et = self.strdict_elem(vt)
+            term = "(sdict_set %s %s %s)" % (term, kk, self.need(vv, vt, et, hoist))
+        return term, ("strdict", et)
+
+    def dataclass_dict(self, e, env, hoist):
+        """x.__dict__ with x an instance of the function's own @dataclass (cfg["dataclass"], checked against the class body by
+        check_dataclass): the dict {field: x.field} over the fields in declaration order"""
+        dc = self.cfg["dataclass"]
+        o, ot = self.expr(e.value, env, hoist)
+        if ot != parse_type(dc["owner"]):
+            raise Unsupported("__dict__ of a %s (the dataclass is declared as %s)" % (ot, dc["owner"]))
+        term, et = "[]", None
+        for name in dc["fields"]:
+            if name not in self.fields or self.fields[name][0] != ot:
+                raise Unsupported("dataclass field %s is not a declared field of %s" % (name, dc["owner"]))
+            _, fty, getter, _ = self.fields[name]
+            if et is None:
+                et = self.strdict_elem(fty)
+            term = "(sdict_set %s %s %s)" % (term, str_literal(name), self.need("(" + getter.format(obj=o) + ")", fty, et, hoist))
+        if et is None:
+            raise Unsupported("__dict__ of a dataclass without fields")
+        return term, ("strdict", et)
+
+    def strdict_or_tuple_subscript(self, e, env, hoist):
+        """d[k] with d : strdict T (a checked read, KeyError = Err cfg["key_error"]); t[i] with t of a tuple type and i a
+        constant index within it (a projection).  None when the subscripted value is neither (the caller goes on)."""
+        mark, saved = len(hoist), self.fresh
+        try:
+            d, dt = self.expr(e.value, env, hoist)
+        except Unsupported:
+            del hoist[mark:]
+            self.fresh = saved
+            return None
+        if dt[0] == "strdict":
+            tag = self.cfg.get("key_error")
+            if tag is None or self.M["type"] != "result":
+                raise Unsupported("read of a string-keyed dict without a declared key_error: " + ast.unparse(e))
+            kk, kt = self.expr(e.slice, env, hoist)
+            n = self.new("r")
+            hoist.append((n, "sdict_read (%d) %s %s" % (tag, d, self.need(kk, kt, ("pystr",), hoist))))
+            return n, dt[1]
+        if dt[0] == "tuple" and isinstance(e.slice, ast.Constant) and isinstance(e.slice.value, int) \
+                and not isinstance(e.slice.value, bool) and 0 <= e.slice.value < len(dt[1]):
+            i, n = e.slice.value, len(dt[1])
+            return self.tuple_proj(d, i, n), dt[1][i]
+        del hoist[mark:]
+        self.fresh = saved
+        return None
+
+    def tuple_proj(self, t, i, n):
+        """component i of an n-tuple term: Coq's (a1, ..., an) is ((...(a1, a2), ...), an)"""
+        if n == 1:
+            return t
+        for _ in range(n - 1 - max(i, 1)):
+            t = "(fst %s)" % t
+        return "(fst %s)" % t if i == 0 else "(snd %s)" % t
+
+    def items_comp(self, g, env):
+        """(d, k, v) when the generator is `for k, v in d.items()` with d a bound variable of type `dict T`, without a condition"""
+        it = g.iter
+        if g.is_async or g.ifs or not (isinstance(g.target, ast.Tuple) and len(g.target.elts) == 2
+                                       and all(isinstance(x, ast.Name) for x in g.target.elts)):
+            return None
+        if not (isinstance(it, ast.Call) and isinstance(it.func, ast.Attribute) and it.func.attr == "items" and not it.args
+                and not it.keywords and isinstance(it.func.value, ast.Name) and env.get(it.func.value.id, ("unit",))[0] == "dictof"):
+            return None
+        return it.func.value.id, g.target.elts[0].id, g.target.elts[1].id
+
+    def dictcomp_over_items(self, e, env, hoist):
+        """{k(a, b): v(a, b) for a, b in d.items()} with d : dict T: the left fold of dict_set over d's entries in insertion order
+        (neither key nor value may raise)"""
+        d, a, b = self.items_comp(e.generators[0], env)
+        if a == b:
+            raise Unsupported("dict comprehension binding one name twice: " + ast.unparse(e))
+        env2 = dict(env)
+        env2[a], env2[b] = ("Z",), env[d][1]
+        inner = []
+        kk, kt = self.expr(e.key, env2, inner)
+        kk = self.need(kk, kt, ("Z",), inner)
+        vv, vt = self.expr(e.value, env2, inner)
+        if inner:
+            raise Unsupported("dict comprehension key / value that may raise: " + ast.unparse(e))
+        acc = self.new("d")
+        return "(fold_left (fun %s '(%s, %s) => dict_set %s %s %s) %s [])" % (acc, a, b, acc, kk, vv, d), ("dictof", vt)
     # ---- dicts with keys of a declared type (`kdict K V`)
     def key_eqb(self, kt):
         """the equality test of a `kdict` key type: Z.eqb for ints, else the one declared in cfg["eqb"]"""
@@ -905,7 +1093,14 @@ class Tr:
             raise Unsupported("positional argument in a keyword call: " + ast.unparse(e)[:80])
         declared = {p: pt for p, pt, _ in params}
         given = {}
+        unpack = None
         for kw in e.keywords:      # source order = Python's evaluation order
+            if kw.arg is None and self.cfg.get("type_error") is not None and self.M["type"] == "result" and kw is e.keywords[-1]:
+                d, dt = self.expr(kw.value, env, hoist)      # F(k1=e1, ..., **d) with d : strdict T, the last argument
+                if dt[0] != "strdict":
+                    raise Unsupported("** unpacking of a %s: %s" % (dt, ast.unparse(e)[:80]))
+                unpack = (d, dt[1])
+                continue
             if kw.arg is None:
                 raise Unsupported("**kwargs in a keyword call: " + ast.unparse(e)[:80])
             if kw.arg not in declared or kw.arg in given:
@@ -913,6 +1108,20 @@ class Tr:
             a, at = self.expr(kw.value, env, hoist)
             given[kw.arg] = self.need(a, at, declared[kw.arg], hoist)
         args = {}
+        if unpack is not None:
+            # the keys of d must be parameters the call does not pass itself (else TypeError); every other parameter is read
+            # from d (a missing one is a TypeError too) and coerced to its declared type
+            tag, (d, vt) = self.cfg["type_error"], unpack
+            rest_params = [(p, pt) for p, pt, default in params if p not in given]
+            if any(default is not None for p, pt, default in params if p not in given):
+                raise Unsupported("** unpacking into a parameter with a default value: " + ast.unparse(e)[:80])
+            hoist.append((self.new("u"), "sdict_only (%d) [%s] %s" % (tag, "; ".join(str_literal(p) for p, _ in rest_params), d)))
+            read = {}
+            for p, pt in rest_params:
+                read[p] = self.new("kw")
+                hoist.append((read[p], "sdict_read (%d) %s %s" % (tag, d, str_literal(p))))
+            for p, pt in rest_params:      # the coercions (cfg["checked_coerce"] may raise) after the call's own TypeErrors
+                given[p] = self.need(read[p], vt, pt, hoist)
         for p, pt, default in params:
             if p in given:
                 args[p] = given[p]
@@ -960,6 +1169,8 @@ class Tr:
             return "[]"
         if want[0] == "pairdict" and have == EMPTY_T:
             return "[]"
+        if want[0] == "strdict" and have == EMPTY_T:
+            return "[]"
         if want[0] == "kdict" and have == EMPTY_T:
             return "[]"
         if {have, want} == {("dict",), ("dictof", ("Z",))}:
@@ -971,6 +1182,11 @@ class Tr:
             n = self.new("u")
             hoist.append((n, "%s %s" % (self.M["unwrap"], term)))
             return n
+        for a, b, tmpl in self.cfg.get("checked_coerce", []):      # cfg["checked_coerce"]: a downcast that may raise
+            if (parse_type(a), parse_type(b)) == (have, want) and self.M["type"] == "result":
+                n = self.new("c")
+                hoist.append((n, tmpl.format(x=term)))
+                return n
         raise Unsupported("type mismatch: %s has type %s, needed %s" % (term, have, want))
 
     def coercion(self, have, want):
@@ -1027,6 +1243,10 @@ class Tr:
             a, at = self.expr(le.elts[0], env, hoist)
             b, bt = self.expr(le.elts[1], env, hoist)
             r = "(pdict_mem %s %s %s)" % (re.id, self.need(a, at, ("Z",), hoist), self.need(b, bt, ("Z",), hoist))
+            return r if isinstance(op, ast.In) else "(negb %s)" % r
+        if isinstance(op, (ast.In, ast.NotIn)) and isinstance(re, ast.Name) and env.get(re.id, ("unit",))[0] == "strdict":
+            x, xt = self.expr(le, env, hoist)      # k in d / k not in d on a string-keyed dict
+            r = "(sdict_mem %s %s)" % (re.id, self.need(x, xt, ("pystr",), hoist))
             return r if isinstance(op, ast.In) else "(negb %s)" % r
         if isinstance(op, (ast.In, ast.NotIn)) and self.cfg.get("eqb_membership"):
             # cfg["eqb_membership"]: `x in L` with L : list T and T a type with a declared equality test (cfg["eqb"]):
@@ -1198,10 +1418,10 @@ class Tr:
                 for c in st.cases:
                     for n in self.assigned(c.body):
                         add(n)
-            elif isinstance(st, ast.Try) and self.cfg.get("except_tags") is not None:
+            elif isinstance(st, ast.Try) and self.cfg.get("except_tag_lists") is not None:
                 for n in self.assigned(st.body) + [x for h in st.handlers for x in self.assigned(h.body)]:
                     add(n)
-            elif isinstance(st, ast.Try) and self.try_prims:
+            elif isinstance(st, ast.Try) and (self.try_prims or self.cfg.get("except_tags") is not None):
                 for n in self.assigned(st.body) + [x for h in st.handlers for x in self.assigned(h.body)]:
                     add(n)
             else:
@@ -1627,10 +1847,12 @@ class Tr:
             return self.loop(st, rest, env, k, ind)
         if isinstance(st, ast.Match):
             return self.block([self.match_to_if(st)] + rest, env, k, ind)
-        if isinstance(st, ast.Try) and self.cfg.get("except_tags") is not None:
-            return self.try_catch(st, rest, env, k, ind)
+        if isinstance(st, ast.Try) and self.cfg.get("except_tag_lists") is not None:
+            return self.try_catch_lists(st, rest, env, k, ind)
         if isinstance(st, ast.Try) and self.try_prims:
             return self.try_stmt(st, rest, env, k, ind)
+        if isinstance(st, ast.Try) and self.cfg.get("except_tags") is not None:
+            return self.try_catch(st, rest, env, k, ind)
         if isinstance(st, ast.With):
             x, ctx = self.with_item(st)
             if self.has_jump(st.body, (ast.Continue,) if self.cfg.get("with_return") else (ast.Continue, ast.Return)):
@@ -1718,12 +1940,37 @@ class Tr:
                 return self.bind_hoist(hoist, txt, ind)
         raise Unsupported("try body whose first statement is not a declared primitive: " + ast.unparse(first)[:80])
 
-    # ---- try / except over exception classes given as sets of error tags (cfg["except_tags"])
     def try_catch(self, st, rest, env, k, ind):
-        """try: B except E [as n]: H   with E declared in cfg["except_tags"] = {class name: [tags]} and H ending in a raise:
-             dor (vs) <- res_catch [tags] (B; Ok (vs)) (H);  rest
-        PyRt.res_catch runs the handler exactly when B ends in an Err whose tag is listed for E; any other Err passes through."""
-        table = self.cfg["except_tags"]
+        """cfg["except_tags"] = {exception class name: tag (a Gallina term of type Z)}:
+               try: B   except E: H        (one handler naming a declared class, no `as`, no else / finally)
+        where B and H both always return (or raise), B assigns no variable and no statement follows: PyRt.res_catch tag B H"""
+        if st.orelse or st.finalbody or len(st.handlers) != 1 or rest or self.M["type"] != "result":
+            raise Unsupported("try statement other than a final try / one except: " + ast.unparse(st)[:60])
+        h = st.handlers[0]
+        tags = self.cfg["except_tags"]
+        if h.name is not None or not isinstance(h.type, ast.Name) or h.type.id[:-len(SUFFIX)] not in tags:
+            raise Unsupported("except clause that does not name one declared exception class: " + ast.unparse(st)[:60])
+        if not (self.returns_always(st.body) and self.returns_always(h.body)) or self.assigned(st.body) \
+                or self.has_jump(st.body + h.body, (ast.Continue, ast.Break)):
+            raise Unsupported("try / except whose parts do not both end in a return, or whose body assigns a variable")
+        tb = self.block(list(st.body), env, k, ind + "    ")
+        th = self.block(list(h.body), env, k, ind + "    ")
+        return "%sres_catch (%s) (\n%s%s  ) (\n%s%s  )\n" % (ind, tags[h.type.id[:-len(SUFFIX)]], tb, ind, th, ind)
+
+    def returns_always(self, stmts):
+        """every path through [stmts] ends in a return or a raise"""
+        for s_ in stmts:
+            if isinstance(s_, (ast.Return, ast.Raise)):
+                return True
+            if isinstance(s_, ast.If) and s_.orelse and self.returns_always(s_.body) and self.returns_always(s_.orelse):
+                return True
+        return False
+    # ---- try / except over exception classes given as sets of error tags (cfg["except_tag_lists"])
+    def try_catch_lists(self, st, rest, env, k, ind):
+        """try: B except E [as n]: H   with E declared in cfg["except_tag_lists"] = {class name: [tags]} and H ending in a raise:
+             dor (vs) <- res_catch_tags [tags] (B; Ok (vs)) (H);  rest
+        PyRt.res_catch_tags runs the handler exactly when B ends in an Err whose tag is listed for E; any other Err passes through."""
+        table = self.cfg["except_tag_lists"]
         if st.orelse or st.finalbody or len(st.handlers) != 1 or self.M["type"] != "result":
             raise Unsupported("try statement other than try / one except (default monad)")
         h = st.handlers[0]
@@ -1759,7 +2006,7 @@ class Tr:
         if len(ends) != 1:
             raise Unsupported("try body with more than one normal end")
         tags = "[" + "; ".join("(%d)" % t for t in table[cls]) + "]"
-        txt = "%sdor %s <- res_catch %s (\n%s%s  ) (\n%s%s  );\n" % (ind, self.bind_pat(vs), tags, tb, ind, th, ind)
+        txt = "%sdor %s <- res_catch_tags %s (\n%s%s  ) (\n%s%s  );\n" % (ind, self.bind_pat(vs), tags, tb, ind, th, ind)
         env_after = dict(env)
         for v in vs:
             env_after[v] = ends[0][v]
@@ -2145,9 +2392,12 @@ class Tr:
         # what is iterated
         if isinstance(it, ast.Call) and isinstance(it.func, ast.Attribute) and it.func.attr == "items" and not it.args:
             d, dt = self.expr(it.func.value, env, hoist)
-            if dt != ("dict",) or len(tnames) != 2:
+            if dt[0] == "strdict" and len(tnames) == 2:      # a string-keyed dict: its (key, value) entries in insertion order
+                xs, elt = d, [("pystr",), dt[1]]
+            elif dt != ("dict",) or len(tnames) != 2:
                 raise Unsupported("items() of a non-dict: " + ast.unparse(it))
-            xs, elt = "(dict_items %s)" % d, [("Z",), ("Z",)]
+            else:
+                xs, elt = "(dict_items %s)" % d, [("Z",), ("Z",)]
         elif isinstance(it, ast.Call) and isinstance(it.func, ast.Name) and it.func.id == rn("enumerate") and len(it.args) == 1:
             l, lt = self.expr(it.args[0], env, hoist)
             if lt[0] != "list" or len(tnames) != 2:
@@ -2198,8 +2448,12 @@ class Tr:
         carried = list(dict.fromkeys(carried))
         dropped = [v for v in (tnames + body_assigned) if (not bound(v) or v in retyped) and v != "_"]
         dropped = list(dict.fromkeys(dropped))
+        rv = None      # cfg["loop_return"]: the loop's state gains an optional return value
         if self.has_jump(st.body, (ast.Return,)):
-            raise Unsupported("return inside a loop")
+            if not self.cfg.get("loop_return") or self.M["type"] != "result" or self.return_state \
+                    or self.cfg.get("implicit_return") is not None:
+                raise Unsupported("return inside a loop")
+            rv = self.new("ret")
         env_body = dict(env)
         tvars = []
         for n, t in zip(tnames, elt):
@@ -2214,11 +2468,16 @@ class Tr:
                     continue
                 pre += "%s    let %s := %s in\n" % (ind, n, tv)
 
-        brk = self.has_jump(st.body, (ast.Break,))     # a `break` of THIS loop: the body answers (go on?, state)
+        brk = self.has_jump(st.body, (ast.Break,)) or rv is not None     # a `break` of THIS loop: the body answers (go on?, state)
         if brk and self.M["type"] != "result":
             raise Unsupported("break in a for loop under a non-default monad")
+        snames = carried + ([rv] if rv is not None else [])      # the names of the loop's state
 
         def kbody(env2, jump=None):
+            if rv is not None and isinstance(jump, tuple) and jump[0] == "return":      # `return e`: leave the loop with Some e
+                return "%s    Ok (false, %s)\n" % (ind, tuple_term(carried + ["(Some %s)" % jump[1]]))
+            if rv is not None and (jump is None or jump in ("continue", "break")):
+                return "%s    Ok (%s, %s)\n" % (ind, "false" if jump == "break" else "true", tuple_term(snames))
             if brk and (jump is None or jump in ("continue", "break")):
                 return "%s    Ok (%s, %s)\n" % (ind, "false" if jump == "break" else "true", tuple_term(carried))
             if jump is not None and jump != "continue":
@@ -2236,12 +2495,22 @@ class Tr:
         spat = tuple_pat(carried) if carried else "(_ : unit)"
         if len(carried) == 1:
             spat = "(%s : %s)" % (carried[0], coq_type(env[carried[0]]))
+        if rv is not None:
+            spat = tuple_pat(snames) if carried else "(%s : %s)" % (rv, coq_type(("opt", self.ret_type)))
         txt = "%s%s %s <- %s (fun %s %s =>\n%s%s%s  ) %s %s;\n" % (
-            ind, self.M["bind"], self.bind_pat(carried), "res_fold_brk" if brk else self.M["fold"], spat, xpat, pre, body, ind, xs, tuple_term(carried))
+            ind, self.M["bind"], self.bind_pat(snames), "res_fold_brk" if brk else self.M["fold"], spat, xpat, pre, body, ind, xs,
+            tuple_term(carried + (["(None : %s)" % coq_type(("opt", self.ret_type))] if rv is not None else [])))
         env_after = dict(env)
         for v in dropped:
             txt += "%slet %s := tt in\n" % (ind, v)   # poison: a later read is a type error
             env_after[v] = ("unit",)
+        if rv is not None:
+            # after the loop: a value returned inside it is the function's (or the enclosing loop's) return, else go on
+            rvv = self.new("v")
+            t_ret = k(env_after, jump=("return", rvv))
+            t_go = self.block(rest, env_after, k, ind + "  ")
+            return self.bind_hoist(hoist, txt, ind) + "%smatch %s with\n%s| Some %s =>\n%s%s| None =>\n%s%send\n" % (
+                ind, rv, ind, rvv, t_ret, ind, t_go, ind)
         return self.bind_hoist(hoist, txt, ind) + self.block(rest, env_after, k, ind)
 
     def while_loop(self, st, rest, env, k, ind):
@@ -2422,7 +2691,7 @@ class YieldToAppend(ast.NodeTransformer):
             return ast.copy_location(ast.Expr(value=call), node)
         return node
 class LoopReturn(ast.NodeTransformer):
-    """cfg["loop_return"] = True: `return e` inside a `for` loop that is a TOP-LEVEL statement of the function (not inside a nested
+    """cfg["loop_return_rewrite"] = True: `return e` inside a `for` loop that is a TOP-LEVEL statement of the function (not inside a nested
     loop, a `with` or a `try`) is rewritten, before translation, into
         loop_ret = None; for ...: ... loop_ret = e; break ...; if loop_ret is not None: return loop_ret
     where loop_ret is a fresh variable of type `opt T`, T the function's return type (so a returned None is `Some None`: the
@@ -2476,6 +2745,45 @@ def check_inherits(tree, cfg):
         own = [n.name for n in cls[0].body if isinstance(n, ast.FunctionDef) and n.name in names]
         if own:
             raise Unsupported("class %s defines its own %s" % (sub, ", ".join(own)))
+def check_dataclass(tree, cfg):
+    """cfg["dataclass"] = {"owner": type, "bases": [base class names], "fields": [field names in order]}: checked, not translated -
+    the class cfg["cls"] is decorated with exactly `@dataclass`, has exactly the declared bases, its annotated class-level names
+    (the dataclass fields, none with a default value) are exactly the declared fields in that order, it has no un-annotated
+    class attribute and defines none of __init__ / __post_init__ / __new__ / __slots__ / __setattr__ / __getattr__ /
+    __getattribute__; a keyword call `cls(...)` declared in cfg["kwcalls"] must take exactly the fields as parameters"""
+    dc = cfg.get("dataclass")
+    if not dc:
+        return
+    cls = [n for n in ast.walk(tree) if isinstance(n, ast.ClassDef) and n.name == cfg.get("cls")]
+    if len(cls) != 1:
+        raise Unsupported("dataclass %s not found exactly once" % cfg.get("cls"))
+    c = cls[0]
+    if [ast.unparse(d) for d in c.decorator_list] != ["dataclass"] or c.keywords:
+        raise Unsupported("class %s is not decorated with exactly @dataclass" % c.name)
+    if [ast.unparse(b) for b in c.bases] != list(dc["bases"]):
+        raise Unsupported("bases of dataclass %s changed: %r" % (c.name, [ast.unparse(b) for b in c.bases]))
+    fields = []
+    for n in c.body:
+        if isinstance(n, ast.AnnAssign):
+            if not isinstance(n.target, ast.Name) or n.value is not None:
+                raise Unsupported("dataclass field with a default value / a non-name target: " + ast.unparse(n)[:80])
+            fields.append(n.target.id)
+        elif isinstance(n, ast.FunctionDef):
+            if n.name in ("__init__", "__post_init__", "__new__", "__setattr__", "__getattr__", "__getattribute__"):
+                raise Unsupported("dataclass %s defines %s" % (c.name, n.name))
+        elif isinstance(n, ast.Expr) and isinstance(n.value, ast.Constant) and isinstance(n.value.value, str):
+            pass
+        else:
+            raise Unsupported("statement in the body of dataclass %s: %s" % (c.name, ast.unparse(n)[:80]))
+    if fields != list(dc["fields"]):
+        raise Unsupported("fields of dataclass %s changed: %r" % (c.name, fields))
+    if "cls" in cfg.get("kwcalls", {}) and [p for p, _, _ in cfg["kwcalls"]["cls"][2]] != fields:
+        raise Unsupported("the declared parameters of cls(...) are not the fields of dataclass %s" % c.name)
+    if "cls" in cfg.get("kwcalls", {}):      # `cls` is the class only in a classmethod whose first parameter it is
+        fn = [n for n in c.body if isinstance(n, ast.FunctionDef) and n.name == cfg["func"]]
+        if len(fn) != 1 or [ast.unparse(d) for d in fn[0].decorator_list] != ["classmethod"] \
+                or [a.arg for a in fn[0].args.args][:1] != ["cls"]:
+            raise Unsupported("cls(...) outside a plain @classmethod of dataclass %s" % c.name)
 def slice_body(f, markers):
     """cfg["body_slice"]: the top-level statements of f from the one whose first line is markers[0] to the one whose first
     line is markers[1], inclusive"""
@@ -2507,6 +2815,7 @@ def check_outside_names(f, run, allowed):
 def translate(source_text, cfg):
     tree = ast.parse(source_text)
     check_inherits(tree, cfg)
+    check_dataclass(tree, cfg)
     f = find_function(tree, cfg["func"], cfg.get("cls"))
     if cfg.get("generator"):
         if any(isinstance(n, (ast.YieldFrom, ast.Return)) for n in ast.walk(f)):
@@ -2518,7 +2827,7 @@ def translate(source_text, cfg):
         cfg["vars"] = dict(cfg["vars"], yielded="list " + cfg["generator"])
         cfg["predefine"] = dict(cfg.get("predefine", {}), yielded="[]")
         cfg["implicit_return"] = "{yielded}"
-    if cfg.get("loop_return"):      # `return` inside a top-level for loop: rewritten into a flag variable + break (LoopReturn)
+    if cfg.get("loop_return_rewrite"):      # `return` inside a top-level for loop: rewritten into a flag variable + break (LoopReturn)
         if any(n.id == "loop_ret" for n in ast.walk(f) if isinstance(n, ast.Name)):
             raise Unsupported("the function uses the name loop_ret itself")
         f = LoopReturn().visit(f)
